@@ -12,7 +12,8 @@ if TYPE_CHECKING:
 
 @lru_cache(1024)
 def _struct(endian: str, packchar: str) -> Struct:
-    return Struct(f"{endian}{packchar}")
+    # Native byte order, but never native alignment: the members of a block are laid out by cstruct, not by struct
+    return Struct(f"{'=' if endian == '@' else endian}{packchar}")
 
 
 T = TypeVar("T", int, float)
